@@ -245,13 +245,16 @@ type node struct {
 	k       int
 	without bool
 	hasGrp  bool
+	gt      bool     // cmp: "> c" (else "<= c")
+	c       int64    // cmp: the scalar
 	g       []int    // tag indices (9 = unknown tag)
 	gtxt    []string // as written
 }
 
 type expr struct {
 	what  string // explicit __what__ or ""
-	by    bool   // explicit __by__ listing all tags
+	by    bool   // explicit __by__ matcher (the selector carries its own grouping)
+	byG   []int  // its tag indices, ascending ([] is __by__="")
 	chain []node // innermost first
 }
 
@@ -261,7 +264,11 @@ func (e expr) selText() string {
 		m = append(m, fmt.Sprintf(`__what__="%s"`, e.what))
 	}
 	if e.by {
-		m = append(m, `__by__="0,1,2"`)
+		var ids []string
+		for _, g := range e.byG {
+			ids = append(ids, tagRef[g][len(tagRef[g])-1]) // canonical id
+		}
+		m = append(m, fmt.Sprintf(`__by__="%s"`, strings.Join(ids, ",")))
 	}
 	if len(m) == 0 {
 		return "m"
@@ -275,6 +282,12 @@ func (e expr) text() string {
 		switch n.kind {
 		case "paren":
 			s = "(" + s + ")"
+		case "cmp":
+			if n.gt {
+				s = fmt.Sprintf("%s > %d", s, n.c)
+			} else {
+				s = fmt.Sprintf("%s <= %d", s, n.c)
+			}
 		case "matrix":
 			s = fmt.Sprintf("%s[%ds]", s, n.rng)
 		case "subq":
@@ -299,6 +312,8 @@ func (e expr) text() string {
 				s = fmt.Sprintf("quantile%s(%s, %s)", grp, fmtFloat(n.q), s)
 			case "topk", "bottomk":
 				s = fmt.Sprintf("%s%s(%d, %s)", n.op, grp, n.k, s)
+			case "sort", "sort_desc":
+				s = fmt.Sprintf("%s(%s)", n.op, s)
 			default:
 				s = fmt.Sprintf("%s%s(%s)", n.op, grp, s)
 			}
@@ -327,6 +342,8 @@ func chainCoq(ch []node) string {
 		switch n.kind {
 		case "paren":
 			p = append(p, "NParen")
+		case "cmp":
+			p = append(p, fmt.Sprintf("NCmp %s %d", vu.B(n.gt), n.c))
 		case "matrix":
 			p = append(p, fmt.Sprintf("NMatrix %d", n.rng))
 		case "subq":
@@ -493,6 +510,21 @@ func (w *world) run(q string) result {
 	}
 	sortSeries(r.series)
 	return r
+}
+
+var digestOf = map[string]promql.DigestWhat{"avg": promql.DigestAvg, "count": promql.DigestCount, "countsec": promql.DigestCountSec,
+	"min": promql.DigestMin, "max": promql.DigestMax, "sum": promql.DigestSum, "sumsec": promql.DigestSumSec, "stdvar": promql.DigestStdVar}
+
+// the series the selector itself yields (its own what and grouping, no pushed-down range), straight from the
+// storage contract and independent of the query the engine chose to issue
+func (w *world) underlying(e expr, ts data_model.Timescale) []srs {
+	gb := []int{0, 1, 2}
+	if e.by {
+		gb = e.byG
+	}
+	q := promql.SeriesQuery{Metric: w.st.metric, Whats: []promql.SelectorWhat{{Digest: digestOf[effWhat(e, w.counter)]}}, GroupBy: gb, Timescale: ts}
+	_, _, _ = w.st.QuerySeries(context.Background(), &q)
+	return w.st.served
 }
 
 // every LOD uniform with its own step, LODs contiguous, the last LOD has the requested step, point count consistent
@@ -741,6 +773,19 @@ func refEval(ch []node, ts data_model.Timescale, l []srs) []srs {
 		switch n.kind {
 		case "matrix", "subq":
 			evr = n.rng
+		case "cmp":
+			out := make([]srs, len(l))
+			for i, s := range l {
+				vs := make([]float64, len(s.vals))
+				for j, v := range s.vals {
+					vs[j] = v
+					if !isNaN(v) && !isAny(v) && (v > float64(n.c)) != n.gt {
+						vs[j] = math.NaN()
+					}
+				}
+				out[i] = srs{tags: s.tags, vals: vs}
+			}
+			l = out
 		case "call":
 			out := make([]srs, len(l))
 			for i, s := range l {
@@ -923,7 +968,10 @@ func genGrouping(r *vu.Rng, n *node) {
 	}
 }
 
-var aggOps = []string{"sum", "sum", "min", "max", "avg", "count", "group", "stdvar", "stddev", "quantile", "topk", "bottomk"}
+var aggOps = []string{"sum", "sum", "min", "max", "avg", "count", "group", "stdvar", "stddev", "quantile", "topk", "bottomk", "bottomk", "sort", "sort_desc"}
+
+func isTop(op string) bool  { return op == "topk" || op == "bottomk" || op == "sort" || op == "sort_desc" }
+func isDesc(op string) bool { return op == "topk" || op == "sort_desc" }
 var otFns = []string{"avg", "min", "max", "sum", "sum", "count", "stdvar", "stddev", "last", "qot", "qot", "present"}
 var whats = []string{"", "", "", "avg", "count", "countsec", "min", "max", "sum", "sumsec", "stdvar"}
 
@@ -931,7 +979,7 @@ func genAgg(r *vu.Rng, allowOrderDependent bool) node {
 	n := node{kind: "agg", qn: 0, qd: 1}
 	for {
 		n.op = aggOps[r.Intn(len(aggOps))]
-		if !allowOrderDependent && (n.op == "quantile" || n.op == "topk" || n.op == "bottomk") {
+		if !allowOrderDependent && (n.op == "quantile" || isTop(n.op)) {
 			continue
 		}
 		break
@@ -943,10 +991,11 @@ func genAgg(r *vu.Rng, allowOrderDependent bool) node {
 		n.q = float64(c[0]) / float64(c[1])
 	}
 	if n.op == "topk" || n.op == "bottomk" {
-		n.k = r.Intn(4)
-		if r.Chance(5) {
-			n.k = -1
-		}
+		n.k = 1 + r.Intn(3) // k <= 0 returns before any storage query
+	}
+	if n.op == "sort" || n.op == "sort_desc" {
+		n.k = 1 << 20
+		return n
 	}
 	genGrouping(r, &n)
 	return n
@@ -1030,9 +1079,16 @@ func genExpr(r *vu.Rng, step, coarse int64) expr {
 	if r.Chance(35) {
 		rng = step
 	}
+	cmp := func(p int) { // a filtering comparison with a scalar (always parenthesised): empties points and whole series
+		if r.Chance(p) {
+			ch = append(ch, node{kind: "cmp", gt: r.Chance(60), c: int64(r.Intn(9))}, node{kind: "paren"})
+		}
+	}
 	switch form {
 	case 0: // selector
+		cmp(15)
 	case 1, 2, 3: // agg(sel)
+		cmp(20)
 		ch = maybeParen(r, ch)
 		ch = append(ch, genAgg(r, true))
 	case 4, 5: // fn(sel[R])
@@ -1041,9 +1097,11 @@ func genExpr(r *vu.Rng, step, coarse int64) expr {
 	case 6, 7: // agg(fn(sel[R]))
 		ch = append(ch, node{kind: "matrix", rng: rng})
 		call()
+		cmp(12)
 		ch = maybeParen(r, ch)
 		ch = append(ch, pairedAgg(r, fn, true))
 	case 8: // fn(agg(sel)[R:])
+		cmp(12)
 		ch = maybeParen(r, ch)
 		ch = append(ch, pairedAgg(r, fn, false))
 		ch = maybeParen(r, ch)
@@ -1154,10 +1212,22 @@ func genWorld(r *vu.Rng) *world {
 		if r.Chance(35) {
 			density = 100 // dense series: windows without a missing point
 		}
+		hidden := r.Chance(22) // a series without a visible point: rows only left of the requested start (lead-in) or none
 		for _, t := range times {
+			if hidden && (t >= w.start || r.Chance(50)) {
+				continue
+			}
 			if ev := genEvents(r, density); len(ev) != 0 {
 				rs.times = append(rs.times, t)
 				rs.evs = append(rs.evs, ev)
+			}
+		}
+		if hidden && len(rs.times) == 0 && len(times) > 0 { // at least the point right before the start
+			for i := len(times) - 1; i >= 0; i-- {
+				if times[i] < w.start {
+					rs.times, rs.evs = []int64{times[i]}, [][]int64{{int64(1 + r.Intn(9))}}
+					break
+				}
 			}
 		}
 		st.data = append(st.data, rs)
@@ -1240,6 +1310,9 @@ func doCase(o *vu.Out, w *world, e expr, seedTag string) {
 	}
 	got := w.run(e.text())
 	if !got.ok {
+		if verbose {
+			fmt.Println("EXEC ERROR", e.text(), got.err)
+		}
 		o.Hist["skip/error"]++
 		return
 	}
@@ -1254,7 +1327,7 @@ func doCase(o *vu.Out, w *world, e expr, seedTag string) {
 	}
 	reduced := !e.by && (got.rng != 0 || len(got.gb) != format.MaxTags) // GroupByAll lists all 48 indices
 	last, hasLast := outermost(e)
-	top := hasLast && last.kind == "agg" && (last.op == "topk" || last.op == "bottomk")
+	top := hasLast && last.kind == "agg" && isTop(last.op)
 	stddev := hasOp(e, "stddev")
 	kinds := []string{"form/" + formOf(e), fmt.Sprintf("lods/%d", len(got.ts.LODs))}
 	if reduced {
@@ -1270,7 +1343,11 @@ func doCase(o *vu.Out, w *world, e expr, seedTag string) {
 	}
 	nontrivial := len(got.series) > 0 && len(e.chain) > 0 && missing
 	line := -1
-	selTerm := fmt.Sprintf("(S_ %s %s)", whatCoq[e.what], vu.B(e.by))
+	byTerm := "None"
+	if e.by {
+		byTerm = "(Some " + natList(e.byG) + ")"
+	}
+	selTerm := fmt.Sprintf("(S_ %s %s)", whatCoq[e.what], byTerm)
 	switch {
 	case stddev:
 		// sqrt is outside Q: stddev is tied to stdvar on the Go side (below); no Coq case
@@ -1281,7 +1358,7 @@ func doCase(o *vu.Out, w *world, e expr, seedTag string) {
 			inner = inner[:len(inner)-1]
 		}
 		inner = inner[:len(inner)-1]
-		term := fmt.Sprintf("CTopK %s %s %s %s %s %s %s %s %s", queryCoq(w, got.ts), dc, selTerm, chainCoq(inner), vu.B(last.op == "topk"),
+		term := fmt.Sprintf("CTopK %s %s %s %s %s %s %s %s %s", queryCoq(w, got.ts), dc, selTerm, chainCoq(inner), vu.B(isDesc(last.op)),
 			vu.Z(int64(last.k)), vu.B(last.without), natList(last.g), seriesCoq(got.series))
 		line = o.Case(input, term, nontrivial, append(kinds, "topk")...)
 	default:
@@ -1292,7 +1369,9 @@ func doCase(o *vu.Out, w *world, e expr, seedTag string) {
 	// ---- oracles on the implementation
 	// (1) the un-reduced evaluation against the closed-form definitions
 	un := e
-	un.by = true
+	if !e.by {
+		un.by, un.byG = true, []int{0, 1, 2}
+	}
 	ur := got
 	if !e.by {
 		ur = w.run(un.text())
@@ -1301,8 +1380,13 @@ func doCase(o *vu.Out, w *world, e expr, seedTag string) {
 		o.Hist["skip/unreduced"]++
 		return
 	}
+	direct := w.underlying(e, ur.ts)
+	// the storage query of a selector with its own grouping keeps that grouping
+	if e.by && fmt.Sprint(got.gb) != fmt.Sprint(e.byG) {
+		o.Fail("reduction_preserves", line, input)
+	}
 	if top {
-		checkTopK(o, line, input, w, un, last, ur)
+		checkTopK(o, line, input, w, un, last, ur, direct)
 	} else if stddev {
 		// stddev == sqrt(stdvar) pointwise, bit for bit, on the same inputs
 		vr := un
@@ -1326,7 +1410,7 @@ func doCase(o *vu.Out, w *world, e expr, seedTag string) {
 			}
 		}
 		quantileSawMissing = false
-		want := refFinish(ur.ts, refEval(un.chain, ur.ts, ur.served))
+		want := refFinish(ur.ts, refEval(un.chain, ur.ts, direct))
 		if !sameLenient(ur.series, want) {
 			name := defOracle(un)
 			if quantileSawMissing {
@@ -1339,11 +1423,11 @@ func doCase(o *vu.Out, w *world, e expr, seedTag string) {
 		}
 	} else {
 		quantileSawMissing = false
-		want := refFinish(ur.ts, refEval(un.chain, ur.ts, ur.served))
+		want := refFinish(ur.ts, refEval(un.chain, ur.ts, direct))
 		if !sameLenient(ur.series, want) {
 			if verbose {
 				fmt.Println("DEF FAIL", un.text(), "ts", ur.ts.Time, ur.ts.StartX, ur.ts.ViewStartX, ur.ts.ViewEndX)
-				fmt.Println("  served", ur.served)
+				fmt.Println("  served", direct)
 				fmt.Println("  got   ", ur.series)
 				fmt.Println("  want  ", want)
 			}
@@ -1416,7 +1500,7 @@ func defOracle(e expr) string {
 
 // topk/bottomk: the result is, per group, min(k, |group|) of the inner series (unchanged), none of them beaten by
 // an inner series left out; weights as documented in evaluator.weight
-func checkTopK(o *vu.Out, line int, input string, w *world, un expr, last node, ur result) {
+func checkTopK(o *vu.Out, line int, input string, w *world, un expr, last node, ur result, direct []srs) {
 	topName := "agg_def/" + last.op
 	if hasOp(un, "present") {
 		topName = "over_time_def/present_inverted" // the argument is not what the definition says (F-C27g)
@@ -1425,7 +1509,7 @@ func checkTopK(o *vu.Out, line int, input string, w *world, un expr, last node, 
 	for len(ch) > 0 && ch[len(ch)-1].kind == "paren" {
 		ch = ch[:len(ch)-1]
 	}
-	inner := refEval(ch[:len(ch)-1], ur.ts, ur.served)
+	inner := refEval(ch[:len(ch)-1], ur.ts, direct)
 	ts := ur.ts
 	var live []srs
 	for _, s := range inner {
@@ -1483,7 +1567,7 @@ func checkTopK(o *vu.Out, line int, input string, w *world, un expr, last node, 
 				if _, in2 := got[tagsKey(s2.tags)]; in2 {
 					continue
 				}
-				if (last.op == "topk" && ws[k2] > ws[i]+tol) || (last.op == "bottomk" && ws[k2] < ws[i]-tol) {
+				if (isDesc(last.op) && ws[k2] > ws[i]+tol) || (!isDesc(last.op) && ws[k2] < ws[i]-tol) {
 					bad = true
 				}
 			}
@@ -1633,6 +1717,21 @@ func main() {
 		e := genExpr(r, w.step, w.coarse)
 		if r.Chance(20) {
 			e.by = true
+			switch r.Intn(4) {
+			case 0, 1:
+				e.byG = []int{0, 1, 2}
+			case 2:
+				e.byG = []int{} // __by__=""
+			default:
+				for g := 0; g < nTags; g++ {
+					if r.Chance(50) {
+						e.byG = append(e.byG, g)
+					}
+				}
+				if e.byG == nil {
+					e.byG = []int{}
+				}
+			}
 		}
 		doCase(o, w, e, fmt.Sprintf("#%d", i))
 	}
